@@ -16,7 +16,9 @@ RULE = (
     "distance <= 1e-12+1e-14*(n+8) rad); every centre must pass RefToast point-in-tile for its own tile and lie in the latitude "
     "range of the tile's corners; sampled pixels (the four corners, quadrant seams, generated ones) are also compared with the "
     "Python-side route create_single_tile(Pos(n+8, 256x+j, 256y+i)) + diagonal mid-point. Tiles: every tile to depth 3 (quick) / "
-    "5 (thorough) exhaustively, generated tiles to depth 16. Tiles come from create_single_tile and from generate_tiles. "
+    "5 (thorough) exhaustively, generated tiles to depth 16. Tiles come from create_single_tile, from generate_tiles (also consumed "
+    "lazily with the other system used in between) and from the leaf visit of a Pyramid object while a second pyramid for the other "
+    "system exists. "
     "The level-0 tile has no Tile object; its grid is observed as the coordinates handed to the sampler by sample_layer(depth 0) and "
     "compared with the centres of the level-8 tiles. Non-trivial: n>=1 (every such tile is asymmetric, a transposed or mirrored "
     "grid fails) or the level-0 grid."
@@ -61,6 +63,27 @@ def check_tile(pos, planetary, pixels, source):
     with toasty_call("coords"):
         if source == "generate" and n <= 5:
             tile = [t for t in toast.generate_tiles(n, bottom_only=True, coordsys=cs) if tuple(t.pos) == (n, x, y)][0]
+        elif source == "generate-interleaved" and n <= 5:
+            # the enumeration is consumed lazily and the other coordinate system is used while it is suspended
+            tile = None
+            for k, t in enumerate(toast.generate_tiles(n, bottom_only=True, coordsys=cs)):
+                if k % 3 == 1:
+                    toast.toast_tile_for_point(2, 0.3, 1.0, coordsys=cs_of(not planetary))
+                if tuple(t.pos) == (n, x, y):
+                    tile = t
+            if tile is None:
+                raise Violation("coords", f"generate_tiles({n}) did not yield tile {pos}")
+        elif source == "pyramid" and n <= 5:
+            # the tile is handed out by a Pyramid object's leaf visit; a second pyramid, for the other system, exists too
+            from toasty.pyramid import Pyramid
+
+            pyr = Pyramid.new_toast(n, coordsys=cs)
+            other = Pyramid.new_toast(n, coordsys=cs_of(not planetary))
+            got = []
+            pyr.visit_leaves(lambda p_, t_: got.append(t_) if tuple(p_) == (n, x, y) else None, parallel=1)
+            if len(got) != 1:
+                raise Violation("coords", f"visiting the leaves of a depth-{n} pyramid handed out tile {pos} {len(got)} times")
+            tile = got[0]
         else:
             tile = toast.create_single_tile(Pos(n, x, y), coordsys=cs)
         lon, lat = toast.toast_tile_get_coords(tile)
@@ -123,7 +146,7 @@ def enum_tiles(tier):
     maxd = 3 if tier == "quick" else 5
     for k, p in enumerate(rp.all_positions(maxd)):
         if p[0] >= 1:
-            yield {"pos": list(p), "source": "generate" if k % 3 == 0 else "single", "planetary_first": bool(k % 2)}
+            yield {"pos": list(p), "source": ["generate", "single", "pyramid", "single", "generate-interleaved", "single"][k % 6], "planetary_first": bool(k % 2)}
 
 
 @st.composite
